@@ -35,7 +35,7 @@ structure Cfg where
   disable : Bool         -- MPS: sampling disabled
   fullCost : Bool
   hasFixed : Bool        -- there are fixed (non-searchable) leaf layers
-  hasAdd : Bool          -- MPS: an `MPSAdd` layer (its cost path writes into `vars(self)`)
+  hasAdd : Bool          -- MPS: an `MPSAdd` layer (since dde6074 its cost path works on a copy of `vars(self)`)
   bnTrain : Bool         -- BatchNorm layers with running statistics inside the seed
   dropout : Bool
   deriving DecidableEq, Repr, Inhabited
@@ -132,7 +132,7 @@ def sampleDraws (c : Cfg) (training : Bool) : Bool :=
 def costAddsAttrs (c : Cfg) : Bool :=
   match c.method with
   | .pit => c.fullCost && c.hasFixed
-  | .mps => c.hasAdd || (c.fullCost && c.hasFixed)
+  | .mps => c.fullCost && c.hasFixed      -- (before dde6074 also `hasAdd`: `MPSAdd.get_cost` wrote into the module)
   | .sn => true      -- `SuperNetCombiner.get_cost` writes `output_shape` into every branch layer
 
 /-- does `export()` construct new layers (their random initialisation advances the RNG) -/
